@@ -126,6 +126,9 @@ class C18(XsProp):
                     fails.append(('case: %s\nresult: %s' % (c, o[:800]), 'decoding raised an error instead of yielding nil'))
                 elif got and got[-1] != 'N' and not got[-1].startswith('B'):
                     fails.append(('case: %s\nresult: %s' % (c, o[:800]), 'decoding produced something that is neither nil nor bytes'))
+                elif len(got) != 1:
+                    # the decoder takes one argument and yields one value: the text must not stay behind under the nil
+                    fails.append(('case: %s\nresult: %s' % (c, o[:800]), 'decoding left %d values on the stack instead of the one result (nil or bytes)' % len(got)))
         if cases:
             samples.append(dict(case=cases[300][:200] if len(cases) > 300 else cases[0][:200], result=(impl[300] if len(impl) > 300 else impl[0])[:200]))
         return n + inval, fails, samples, dict(round_trips=n, invalid_texts=inval)
